@@ -139,6 +139,18 @@ func runC17(c *Ctx) {
 		} else if msg := sameAsDecoded(t, d); msg != "" {
 			c.Violation("json-text-changed", msg, map[string]any{"value": tokensOf(t), "exported": string(out)})
 		}
+		// the same tree with every lazy list backed by a stream (one traversal only): the exporter evaluates a list once
+		if strings.Contains(tokensOf(t), "L ") {
+			vtOneShot = true
+			v1 := t.Build()
+			vtOneShot = false
+			out1, err1 := exportJSON(v1)
+			c.Count("one-shot-lazy-lists")
+			if err1 != nil || string(out1) != string(out) {
+				c.Violation("json-list-traversed-twice", "a lazy list that can be traversed only once is not exported like the same list held in memory",
+					map[string]any{"value": tokensOf(t), "exported": string(out), "exported_one_shot": string(out1), "error": fmt.Sprint(err1)})
+			}
+		}
 		reqs = append(reqs, "JSON\t"+tokensOf(t))
 		outs = append(outs, out)
 		kept = append(kept, t)
